@@ -289,9 +289,19 @@ fn capture_stdout() {
         }
     });
 }
+/// Waits for the n-th captured line: up to 2 s the first time; once a line has failed to arrive in this process
+/// (the event went somewhere else: the case fails anyway) later waits are short, so that a failing case costs
+/// seconds and not a minute.
+static WAIT_TIMED_OUT: std::sync::atomic::AtomicBool = std::sync::atomic::AtomicBool::new(false);
 fn wait_captured(n: usize) {
+    use std::sync::atomic::Ordering::SeqCst;
+    let limit = if WAIT_TIMED_OUT.load(SeqCst) { Duration::from_millis(100) } else { Duration::from_secs(2) };
     let t0 = std::time::Instant::now();
-    while CAPTURED.lock().unwrap().len() < n && t0.elapsed() < Duration::from_secs(5) {
+    while CAPTURED.lock().unwrap().len() < n {
+        if t0.elapsed() >= limit {
+            WAIT_TIMED_OUT.store(true, SeqCst);
+            return;
+        }
         std::thread::sleep(Duration::from_micros(200));
     }
 }
@@ -566,7 +576,7 @@ fn run_in_child(toks: &[&str]) -> String {
     });
     let mut lines = Vec::new();
     while lines.len() < expected {
-        match lrx.recv_timeout(Duration::from_secs(5)) {
+        match lrx.recv_timeout(Duration::from_secs(2)) {
             Ok(l) => lines.push(l),
             Err(_) => break,
         }
